@@ -233,6 +233,18 @@ theorem dmulf_d1_counterexample :
     durMulOk (Dur.mk (-2) 1577880000000000000).val (toRat one) (Dur.mk (-3) 1577880000000000000).val = false := by
   decide +kernel
 
+/-- D42 (recorded finding, found by audit 2): "multiplying a duration by a finite float behaves likewise", i.e. is
+    EXACT whenever the product is a whole number of nanoseconds below 2^53 — it is not: the decimal precision
+    search stops on the ROUNDED integer q·10^p once the exact one needs more than 53 bits.
+    1 day × (1 + 2^-20) = 86 401 318 359 375 ns exactly (a whole number, < 2^53), the code returns …374;
+    `Unit::Day * (1 + 2^-20)` (the unit × float path) is exact.  The value theorem `dmulf_value_partial` (1 ns +
+    2^-50 relative) is what holds in general. -/
+theorem dmulf_whole_product_counterexample :
+    durMulF64 ⟨0, 86400000000000⟩ (ofBits 0x3ff0001000000000) = .ok ⟨0, 86401318359374⟩ ∧
+    ((86400000000000 : Int) : Rat) * toRat (ofBits 0x3ff0001000000000) = ((86401318359375 : Int) : Rat) ∧
+    unitMulF64 (F64.ofInt Gen.NANOSECONDS_PER_DAY) (ofBits 0x3ff0001000000000) = ⟨0, 86401318359375⟩ := by
+  decide +kernel
+
 -- non-vacuity: hypotheses are met by non-trivial values
 example : unitFactorF "wk" = some (F64.mul (F64.ofInt Gen.NANOSECONDS_PER_DAY) DAYS_PER_WEEK) ∧
     unitNs "wk" = some 604800000000000 := by decide +kernel
